@@ -211,11 +211,12 @@ class Resolve(Contract):
 
 
 class Handler(Contract):
-    props = ('C02',)
+    props = ('C02', 'C11')
     file = 'ombott/ombott.py'
     qualname = 'Ombott.handler'
-    assumptions = ('route handlers and hooks are user code (opaque calls)',)
-    expected_labels = ('raise.405_with_allow_header', 'raise.404_never_405')
+    assumptions = ('route handlers and hooks are user code (opaque calls)',
+                   'hook positions collected by the lookup are relative to request.path (the path the router resolved)')
+    expected_labels = ('raise.405_with_allow_header', 'raise.404_never_405', 'hooks.called_with_the_matched_prefix_of_the_request_path')
 
     def pre(self, X):
         self.kind = ('405', '404', 'ok')[X.choose(3, 'routing outcome')]
@@ -230,15 +231,37 @@ class Handler(Contract):
         else:
             err = NONE
         self.called = []
+        self.hook_calls = []
+        self.path = X.fresh_str('path')
+        self.pos = X.fresh_int('route_pos')
 
         def route(X, args, kwargs):
             c.called.append('route')
             return VOpaque(X.fresh(PyObj, 'result'), 'result')
+
+        def hook(X, args, kwargs):
+            c.called.append('hook')
+            c.hook_calls.append(args)
+            return NONE
+        self.hook = VFunc(hook, 'hook')
+        self.with_hook = self.kind == 'ok' and X.choose(2, 'route hooks collected?') == 1
+        route_hooks = VList([VList([self.pos, VObj('Hooks', {})])]) if self.with_hook else NONE
         self.stubs = {}
-        return {'app': VObj('App', {'request': VObj('Request', {'path': X.fresh_str('path')})}),
-                'route': VFunc(route, 'route'), 'kwargs': VObj('StrDict', {}), 'route_hooks': NONE, 'error404_405': err}
+        # the raw PATH_INFO is a different string from the decoded, resolved path
+        env = VObj('Environ', {})
+        self.raw = X.fresh_str('PATH_INFO')
+        return {'app': VObj('App', {'request': VObj('Request', {'path': self.path, 'environ': env})}),
+                'route': VFunc(route, 'route'), 'kwargs': VObj('StrDict', {}), 'route_hooks': route_hooks, 'error404_405': err}
 
     def getitem_hook(self, X, obj, key):
+        if isinstance(obj, VObj) and obj.cls == 'Environ':
+            return self.raw
+        if isinstance(obj, VObj) and obj.cls == 'Hooks':
+            simple = X.globals['HookTypes'].SIMPLE
+            k = getattr(key, 'obj', None)
+            if k is None and isinstance(key, VInt) and z3.is_int_value(z3.simplify(key.t)):
+                k = z3.simplify(key.t).as_long()
+            return self.hook if (k is simple or k == simple) else NONE
         if isinstance(obj, VObj) and obj.cls == 'Extra404':
             k = z3.simplify(key.t).as_string()
             if k == 'hooks':
@@ -253,7 +276,16 @@ class Handler(Contract):
         return None
 
     def post(self, X, ret):
-        X.prove('post.handler_called_only_without_error', z3.BoolVal(self.kind == 'ok' and self.called == ['route']))
+        X.prove('post.handler_called_only_without_error',
+                z3.BoolVal(self.kind == 'ok' and self.called == (['hook', 'route'] if self.with_hook else ['route'])))
+        if self.with_hook:
+            a = self.hook_calls[0] if self.hook_calls else []
+            want = z3.SubString(self.path.t, 0, z3.If(1 + self.pos.t < 0, 0, 1 + self.pos.t))
+            X.assume(self.pos.t >= 0)
+            X.prove('hooks.called_with_the_matched_prefix_of_the_request_path',
+                    a[0].t == z3.SubString(self.path.t, 0, 1 + self.pos.t) if len(a) == 1 and isinstance(a[0], VStr) else z3.BoolVal(False))
+        else:
+            X.prove('hooks.called_with_the_matched_prefix_of_the_request_path', z3.BoolVal(not self.hook_calls))
 
     def post_raise(self, X, exc):
         name = getattr(exc.pyclass, '__name__', '')
